@@ -198,7 +198,10 @@ func c03(c *Ctx) {
 		r.Und("C03.R2", "jump back in "+shortName(gen), p.Pos(gen.Pos()), "fixer call or jump-back emitter call not found in the trampoline builder")
 	} else {
 		ext := func(k int) func(ssa.Value) bool {
-			return func(v ssa.Value) bool { ex, ok := v.(*ssa.Extract); return ok && ex.Tuple == ssa.Value(fixerCall) && ex.Index == k }
+			return func(v ssa.Value) bool {
+				ex, ok := v.(*ssa.Extract)
+				return ok && ex.Tuple == ssa.Value(fixerCall) && ex.Index == k
+			}
 		}
 		lenOfData := func(v ssa.Value) bool {
 			cl, ok := v.(*ssa.Call)
@@ -393,6 +396,16 @@ func c03(c *Ctx) {
 								}
 							}
 						}
+					}
+				}
+			})
+			// what is relocated must be the function's own prologue: a patch registered earlier for this origin is restored
+			// before the prologue is read (otherwise the placeholder receives a copy of the previous mock's jump)
+			eachInstr(inst, func(i ssa.Instruction) {
+				if cl, ok := i.(*ssa.Call); ok {
+					if cal := staticCallee(cl.Common()); cal != nil && p.modReach(cal)[tb] {
+						r.Check(prevPatchRestoredBefore(p, inst, cl), "C03.R3", "previous patch restored before the prologue is relocated in "+shortName(inst), p.Pos(posOf(cl)), "if registered(origin) { restore(origin) } dominates the relocation",
+							"the prologue is relocated into the placeholder before a previously registered patch of the same origin was restored: the placeholder receives a copy of the earlier mock's entry jump and calling it enters that mock instead of the original")
 					}
 				}
 			})
